@@ -10,7 +10,7 @@ def prop(pid, pkg, tests, rule, level="exploration", **kw):
 
 
 prop("C02", "nitrocheck",
-     [dict(name="TestC02", quick=4000, thorough=60000, thorough_shards=16, steps=40)],
+     [dict(name="TestC02", quick=4000, thorough=25000, thorough_shards=4, steps=40)],
      rule="rapid state machine: sequences of Put2/Delete/Delete2/DeleteNode/GetNode/NewSnapshot/Open/Close through 1-3 writers "
           "from one goroutine, drawn comparator (bytes / CompareKV with a fresh value per Put), drawn memory mode (Go heap / guard allocator); "
           "every result is compared with a reference set and every snapshot's Count/ItemsCount/scan with the set. "
@@ -27,9 +27,9 @@ SEQ_NOTE = ("Trusts the reference model in harness/nitrocheck/world.go (epoch mo
             "collection is awaited after every retiring Close so that the physical state is a function of the history.")
 
 prop("C01", "nitrocheck",
-     [dict(name="TestC01", quick=1500, thorough=40000, thorough_shards=8, steps=50),
-      dict(name="TestC01Readers", quick=500, thorough=10000, thorough_shards=4, steps=30),
-      dict(name="TestC01Conc", pkg="conccheck", quick=2500, thorough=60000, thorough_shards=4, env={"GOMAXPROCS": "2"})],
+     [dict(name="TestC01", quick=1500, thorough=6000, thorough_shards=3, steps=50),
+      dict(name="TestC01Readers", quick=500, thorough=2000, thorough_shards=2, steps=30),
+      dict(name="TestC01Conc", pkg="conccheck", quick=2500, thorough=20000, thorough_shards=4, env={"GOMAXPROCS": "2"})],
      rule="rapid state machine over Put/Delete/DeleteNode/NewSnapshot/Open/Close(any order)/GC/await and delete->snapshot->re-insert chains with up to 8 snapshots "
           "held, both comparators and memory modes; after EVERY step every open snapshot is scanned and compared (bytes, order, once each, Count) with the content "
           "frozen in the model at its creation. TestC01Readers adds 1-4 reader goroutines that keep scanning (refresh rate 0/1/3) and visiting snapshots they hold "
@@ -47,7 +47,7 @@ prop("C01", "nitrocheck",
      level_note=SEQ_NOTE)
 
 prop("C09", "nitrocheck",
-     [dict(name="TestC09", quick=1200, thorough=10000, thorough_shards=16, steps=60)],
+     [dict(name="TestC09", quick=1200, thorough=3000, thorough_shards=4, steps=60)],
      rule="rapid state machine: version histories (single and bulk puts/deletes, snapshot churn, GC) interleaved with an iterator program on a drawn open snapshot "
           "(SeekFirst, Seek to present/absent/just-after/below-min/above-max keys, Next x1-4, explicit Refresh, SetRefreshRate 0-5, re-Seek); oracle = index into the "
           "snapshot's frozen sorted content (Valid iff idx<len, Get == content[idx]) after every step. Non-trivial: a refresh opportunity (explicit or automatic) while "
@@ -59,9 +59,9 @@ prop("C09", "nitrocheck",
      level_note=SEQ_NOTE)
 
 prop("C10", "nitrocheck",
-     [dict(name="TestC10", quick=700, thorough=10000, thorough_shards=12, steps=40),
-      dict(name="TestC10Conc", quick=300, thorough=3000, thorough_shards=4, steps=30),
-      dict(name="TestC10Large", quick=200, thorough=3000, thorough_shards=8)],
+     [dict(name="TestC10", quick=700, thorough=2500, thorough_shards=4, steps=40),
+      dict(name="TestC10Conc", quick=300, thorough=1000, thorough_shards=2, steps=30),
+      dict(name="TestC10Large", quick=200, thorough=1500, thorough_shards=2)],
      rule="rapid state machine: histories with bulk puts/deletes (0-300 items, multi-version, older snapshots held open) and Visitor(snapshot, shards 1-40 or > item count, "
           "concurrency 1-8) with a callback error injected at a drawn (shard,index) in a quarter of the visits; oracle: concatenation of the per-shard callback sequences in "
           "shard order == the snapshot's frozen content; injected error => that error is returned; returns within a 20 s watchdog. Non-trivial: >=2 non-empty shards while "
@@ -83,8 +83,8 @@ prop("C10", "nitrocheck",
      level_note=SEQ_NOTE + " Shard ids passed to the callback must lie in [0, shards).")
 
 prop("C05", "nitrocheck",
-     [dict(name="TestC05", quick=500, thorough=5000, thorough_shards=14, steps=30),
-      dict(name="TestC05OneCPU", quick=150, thorough=3000, thorough_shards=2, steps=30, wrap=["taskset", "-c", "0"])],
+     [dict(name="TestC05", quick=500, thorough=2500, thorough_shards=4, steps=30),
+      dict(name="TestC05OneCPU", quick=150, thorough=1000, thorough_shards=1, steps=30, wrap=["taskset", "-c", "0"])],
      rule="rapid state machine: histories (single/bulk puts and deletes, snapshot churn, GC; drawn comparator, memory mode, delta interleaving, 1-3 writers) with up to 3 "
           "backup cycles each: StoreToDisk of a drawn open snapshot (latest or older; store concurrency 1-8; DiskBlockSize 512K/64/16; optionally a pre-drawn mutation script "
           "of puts/deletes/snapshots/closes/GC executed from inside the ItemCallback after the k-th item), LoadFromDisk into a fresh instance (load concurrency 1/2/4/8/17, "
@@ -98,8 +98,8 @@ prop("C05", "nitrocheck",
      level_note=SEQ_NOTE + " Backups go to tmpfs scratch directories; free-running concurrent mutation during backup is sampled only through the callback hand-over.")
 
 prop("C06", "nitrocheck",
-     [dict(name="TestC06", quick=400, thorough=4000, thorough_shards=12, steps=50),
-      dict(name="TestC06Conc", pkg="conccheck", quick=1200, thorough=20000, thorough_shards=4, env={"GOMAXPROCS": "2"})],
+     [dict(name="TestC06", quick=400, thorough=1500, thorough_shards=4, steps=50),
+      dict(name="TestC06Conc", pkg="conccheck", quick=1200, thorough=6000, thorough_shards=4, env={"GOMAXPROCS": "2"})],
      rule="rapid state machine weighted to deletes across epochs (single and bulk), snapshots closed in drawn (non-FIFO) order, GC; strict mode: after every Close "
           "that retires a snapshot and after every GC() the harness waits (bounded) for the collection workers and then requires node_count == the epoch model's "
           "physical count (#live + #versions whose deleting epoch's snapshot chain is not fully closed), soft_deletes == 0, memory_used == the exact byte sum of those "
@@ -116,8 +116,8 @@ prop("C06", "nitrocheck",
      level_note=SEQ_NOTE + " A 20 s bounded wait is the only way to observe 'never collected'; it is reached only when collection is genuinely stuck.")
 
 prop("C07", "nitrocheck",
-     [dict(name="TestC07", quick=300, thorough=5000, thorough_shards=10, steps=50),
-      dict(name="TestC07Conc", pkg="conccheck", quick=1500, thorough=40000, thorough_shards=6, env={"GOMAXPROCS": "2"})],
+     [dict(name="TestC07", quick=300, thorough=3000, thorough_shards=4, steps=50),
+      dict(name="TestC07Conc", pkg="conccheck", quick=1500, thorough=15000, thorough_shards=4, env={"GOMAXPROCS": "2"})],
      rule="rapid state machine in user-managed-memory mode on a guard allocator (own page run per block, poison, never reused; trap or quarantine mode drawn): puts, rejected "
           "puts of live keys, same-epoch and cross-epoch deletes, bulk operations, snapshots closed in drawn order, GC, up to 2 backup+restore cycles (delta on/off) whose "
           "restored instance runs further operations and is closed; oracle: no bad free at any step; after Close() of each instance (all snapshots/iterators closed) the "
@@ -131,8 +131,8 @@ prop("C07", "nitrocheck",
      level_note=SEQ_NOTE + " Failed restores (LoadFromDisk returning an error) are not judged by this check.")
 
 prop("C18", "slcheck",
-     [dict(name="TestC18Builder", quick=5000, thorough=500000, thorough_shards=8),
-      dict(name="TestC18Merger", quick=10000, thorough=1000000, thorough_shards=8),
+     [dict(name="TestC18Builder", quick=5000, thorough=150000, thorough_shards=8),
+      dict(name="TestC18Merger", quick=10000, thorough=300000, thorough_shards=8),
       dict(name="FuzzC18Merger", fuzz=60)],
      rule="Builder: 0-8 segments (empty ones anywhere, sizes 0-40, ascending items across the concatenation), filled sequentially or by one goroutine per segment, "
           "assembled; oracle: scan == concatenation, structural walk of every level (C14 predicate) and statistics == walk, Lookup of every value in range, then 0-30 "
@@ -146,10 +146,10 @@ prop("C18", "slcheck",
      level_note="Level assignment inside Segment.Add is the library's own PRNG (not drawn); concurrent fill samples the Go scheduler (segments are independent).")
 
 prop("C19", "nitrocheck",
-     [dict(name="TestC19", quick=700, thorough=50000, thorough_shards=8),
-      dict(name="TestC19KV", quick=2000, thorough=300000, thorough_shards=8),
-      dict(name="TestC19Conc", quick=150, thorough=3000, thorough_shards=2),
-      dict(name="FuzzC19Decode", fuzz=90),
+     [dict(name="TestC19", quick=700, thorough=5000, thorough_shards=4),
+      dict(name="TestC19KV", quick=2000, thorough=50000, thorough_shards=4),
+      dict(name="TestC19Conc", quick=150, thorough=1000, thorough_shards=2),
+      dict(name="FuzzC19Decode", fuzz=60),
       dict(name="FuzzC19KV", fuzz=60)],
      rule="Item sequences (0-12 items; lengths biased to 1-40 with spikes at 255/256/257/65535/65536/65537 and up to 200 KiB; contents biased to zero runs, "
           "00 00 00 nn length look-alikes, 0xFF, pseudo-random), DiskBlockSize drawn from 5/16/64/4096/512K: (a) real file writer -> file -> real reader: same sequence "
@@ -164,8 +164,8 @@ prop("C19", "nitrocheck",
      level_note="The harness's own framing of the older format is the trusted reference for (b).")
 
 prop("C20", "ntcheck",
-     [dict(name="TestC20Table", quick=10000, thorough=600000, thorough_shards=8, steps=40),
-      dict(name="TestC20List", quick=5000, thorough=400000, thorough_shards=8, steps=30),
+     [dict(name="TestC20Table", quick=10000, thorough=200000, thorough_shards=8, steps=40),
+      dict(name="TestC20List", quick=5000, thorough=150000, thorough_shards=8, steps=30),
       dict(name="FuzzC20Table", pkg="ntcheck", fuzz=60)],
      rule="rapid state machines. Table: Update/Get/Remove over keys of 0-3 symbols from {a,b,c}, hash drawn from {constant, len mod 2, first byte mod 3, crc32}; "
           "oracle map[key]pointer for every result, ItemsCount == len, MemoryInUse == 42*len after every step. Non-trivial: a fast-table entry was removed while its "
@@ -182,7 +182,7 @@ SCHED_NOTE = ("Schedules are owned by the harness: a token-passing scheduler run
 G1 = {"GOMAXPROCS": "1"}
 
 prop("C13", "slcheck",
-     [dict(name="TestC13", quick=20000, thorough=500000, thorough_shards=16, env=G1)],
+     [dict(name="TestC13", quick=20000, thorough=60000, thorough_shards=16, env=G1)],
      rule="2-4 controlled threads run drawn scripts (1-5 ops) of Insert2 (drawn height 0-4 via a scripted level function), Delete, DeleteNode on node handles shared "
           "between threads (Go-managed memory) and Lookup over 3-5 keys on a list pre-populated with tall nodes; drawn memory mode (Go heap / guard allocator with a "
           "destructor that frees; there deletes follow the owner protocol lookup+DeleteNode2+FlushSession-on-success under one token); schedule drawn as PCT priorities "
@@ -196,8 +196,8 @@ prop("C13", "slcheck",
      level_note=SCHED_NOTE)
 
 prop("C14", "slcheck",
-     [dict(name="TestC14", quick=12000, thorough=300000, thorough_shards=12, env=G1),
-      dict(name="TestC14Store", pkg="nitrocheck", quick=300, thorough=5000, thorough_shards=4, steps=30)],
+     [dict(name="TestC14", quick=12000, thorough=60000, thorough_shards=8, env=G1),
+      dict(name="TestC14Store", pkg="nitrocheck", quick=300, thorough=1500, thorough_shards=3, steps=30)],
      rule="C13's concurrent generator (contended inserts/deletes under generated schedules, both memory modes) followed by a sequential phase, with the structural predicate "
           "run at both quiescent points: per level the unmarked chain head->tail is strictly increasing and acyclic, is a subsequence of the level below, no node above its "
           "height or above the list level, every live node linked at all levels up to its height; statistics (per-height node counts, soft deletes, memory in use, "
@@ -212,7 +212,7 @@ prop("C14", "slcheck",
      level_note=SCHED_NOTE + " Restored stores are walked in C05 only through public statistics (node_count).")
 
 prop("C15", "slcheck",
-     [dict(name="TestC15", quick=15000, thorough=400000, thorough_shards=16, env=G1)],
+     [dict(name="TestC15", quick=15000, thorough=150000, thorough_shards=16, env=G1)],
      rule="Stable even keys (never touched) interleaved with volatile odd keys; one controlled reader (SeekFirst or Seek(x), Next to the end, drawn refresh interval 0-3, "
           "optional Pause/Resume with re-seek) and 1-3 controlled mutators inserting/deleting volatile keys, a third of the operations aimed at the reader's current key, "
           "its predecessor or successor; both memory modes; schedule drawn (PCT / random walk). Oracle: returned sequence never decreases, equal neighbours only with an "
@@ -225,7 +225,7 @@ prop("C15", "slcheck",
      level_note=SCHED_NOTE)
 
 prop("C16", "slcheck",
-     [dict(name="TestC16", quick=20000, thorough=600000, thorough_shards=16, env=G1)],
+     [dict(name="TestC16", quick=20000, thorough=150000, thorough_shards=16, env=G1)],
      rule="2-5 controlled threads with drawn scripts (1-6 ops) of Acquire, Release(any own token), FlushSession(ref_k), including nested holders and flushes while holding; "
           "every barrier hook and every step of the internal queue is a yield point; schedule drawn (PCT / random walk). Oracle on the totally ordered event log: destructor "
           "at most once per flush; flush f returned before flush g was called => destructor(f) before destructor(g); accessor whose Acquire returned before f was called => "
@@ -237,8 +237,8 @@ prop("C16", "slcheck",
      level_note=SCHED_NOTE)
 
 prop("C17", "slcheck",
-     [dict(name="TestC17", quick=20000, thorough=600000, thorough_shards=12, env=G1),
-      dict(name="TestC17Nitro", pkg="nitrocheck", quick=500, thorough=10000, thorough_shards=4, steps=50)],
+     [dict(name="TestC17", quick=20000, thorough=150000, thorough_shards=8, env=G1),
+      dict(name="TestC17Nitro", pkg="nitrocheck", quick=500, thorough=3000, thorough_shards=3, steps=50)],
      rule="Same generator as C16; every script ends with all tokens released. Oracle at quiescence (all threads finished): destructor calls == FlushSession calls, "
           "GetStats freed == allocated-1 and queued == 0; no timer involved. (C04 layer A adds: allocator live set == linked nodes + sentinels at quiescence.) "
           "Non-trivial: >=2 flushes, both queue-insert and try-lock yield points were hit and a thread was pre-empted inside an operation. Distinct = hash of (scripts, schedule). "
@@ -252,10 +252,10 @@ prop("C17", "slcheck",
      level_note=SCHED_NOTE)
 
 prop("C04", "slcheck",
-     [dict(name="TestC04A", quick=20000, thorough=500000, thorough_shards=6, env=G1),
-      dict(name="TestC04B", pkg="conccheck", quick=3000, thorough=40000, thorough_shards=4, env={"GOMAXPROCS": "2"}),
-      dict(name="TestC04Seq", pkg="nitrocheck", quick=300, thorough=6000, thorough_shards=3, steps=50),
-      dict(name="TestC04Equal", quick=30000, thorough=500000, thorough_shards=3, env=G1)],
+     [dict(name="TestC04A", quick=20000, thorough=80000, thorough_shards=6, env=G1),
+      dict(name="TestC04B", pkg="conccheck", quick=3000, thorough=8000, thorough_shards=4, env={"GOMAXPROCS": "2"}),
+      dict(name="TestC04Seq", pkg="nitrocheck", quick=300, thorough=1500, thorough_shards=2, steps=50),
+      dict(name="TestC04Equal", quick=30000, thorough=100000, thorough_shards=3, env=G1)],
      rule="Layer A (skiplist + access barrier + guard allocator in trap mode, fully controlled): 2-4 threads play writer (Insert2 with drawn heights; delete = lookup + "
           "DeleteNode2 + FlushSession-on-success under one token; 1-3 contended keys), collector (unlink a chained list of nodes, then flush the list) and reader (iterator "
           "with refresh interval 0-3, Seek, Pause/Resume); schedule drawn. Oracle: no access to a freed block (page fault mapped to the block and its alloc/free ops), no "
@@ -279,7 +279,7 @@ SEMI_NOTE = ("Harness threads (writers, openers/closers, readers) are scheduled 
              "and a worker are sampled, not owned (they are owned one level down in C04 layer A / C15).")
 
 prop("C03", "conccheck",
-     [dict(name="TestC03", quick=4000, thorough=50000, thorough_shards=16, env=G2)],
+     [dict(name="TestC03", quick=4000, thorough=10000, thorough_shards=12, env=G2)],
      rule="1-3 rounds per case on one instance (drawn comparator bytes/KV; a quarter of the cases on an instance restored from a backup, writers created after the load): 2-4 controlled writer threads (one Writer each) run drawn scripts of 1-4 Put2/Delete/GetNode over "
           "2-3 keys (collisions are the norm; later rounds hit keys born or deleted in earlier epochs; older snapshots drawn open or closed) under a drawn schedule (PCT / "
           "random walk over node-level and DeleteNode yield points); after each round NewSnapshot + scan. Oracle: porcupine per key over exact call/return stamps with the "
@@ -292,7 +292,7 @@ prop("C03", "conccheck",
      level_note=SEMI_NOTE)
 
 prop("C08", "conccheck",
-     [dict(name="TestC08", quick=6000, thorough=150000, thorough_shards=16, env=G2)],
+     [dict(name="TestC08", quick=6000, thorough=40000, thorough_shards=12, env=G2)],
      rule="1-3 snapshots with garbage; 2-4 controlled threads each owning 0-2 references per snapshot (one may be an outsider holding only the pointers) run drawn scripts of "
           "Open/Close/NewIterator, then release everything they own (iterators included); yields between the zero test and the increment in Open, after the decrement and at "
           "the retirement in Close, in GC, and at every node step of the snapshot lists. Oracle: porcupine per snapshot on a counter model (Open/NewIterator succeed iff "
@@ -305,10 +305,10 @@ prop("C08", "conccheck",
      level_note=SEMI_NOTE)
 
 prop("C11", "nitrocheck",
-     [dict(name="TestC11", quick=1, thorough=2, thorough_shards=12),
-      dict(name="TestC11Multi", quick=1500, thorough=30000, thorough_shards=3),
+     [dict(name="TestC11", quick=1, thorough=1, thorough_shards=6),
+      dict(name="TestC11Multi", quick=1500, thorough=6000, thorough_shards=3),
       dict(name="TestC11KnownFinding", quick=1, thorough=1, thorough_shards=1),
-      dict(name="FuzzC11", fuzz=180)],
+      dict(name="FuzzC11", fuzz=120)],
      level="fault_enumeration",
      rule="Each case generates a database (0-20 items quick, up to 150 thorough; key styles: sequential ASCII, pseudo-random hex, zero-led binary that looks like length "
           "prefixes; bytes/KV comparator; delta interleaving on with real delta content produced by deletes+collection during the backup, or off), stores it once, and then "
@@ -333,8 +333,8 @@ prop("C11", "nitrocheck",
      timeout_quick=3600, timeout_thorough=14400)
 
 prop("C12", "nitrocheck",
-     [dict(name="TestC12Limit", quick=8, thorough=200, thorough_shards=8),
-      dict(name="TestC12Crash", quick=40, thorough=2000, thorough_shards=8)],
+     [dict(name="TestC12Limit", quick=8, thorough=40, thorough_shards=4),
+      dict(name="TestC12Crash", quick=40, thorough=300, thorough_shards=4)],
      level="fault_enumeration",
      rule="Generated databases (0-60 items incl. padded large ones, bytes/KV comparator, delta on/off, DiskBlockSize 512K/64/16, store concurrency 1-4). "
           "(a) TestC12Limit: in-process RLIMIT_FSIZE (SIGXFSZ ignored) set to L around StoreToDisk so that every write growing a file beyond L bytes fails; L enumerated over "
@@ -365,7 +365,7 @@ ENGINES = [
          kind_free_text="rapid state machine for nodetable and NodeList against map/slice models"),
 ]
 
-HOOK_COMMITS = ["68a99b4", "f22678a", "4a2a6f1"]
+HOOK_COMMITS = ["68a99b4", "f22678a", "4a2a6f1", "a308b45"]
 
 # serves_properties is derived from the tests above (a property served by several packages appears under each)
 for _e in ENGINES:
